@@ -3,6 +3,7 @@
 Decides (all paths): the would-block arm of the drain routine leaves the drain loop without another socket write,
 arms write interest on every path, the writable event resumes draining, and arming reaches epoll_ctl(MOD).
 Does not decide timing."""
+import re
 from .. import cfg, lib
 from .. import facts
 from ..facts import AnalysisBroken
@@ -188,3 +189,57 @@ def run(ck):
               "what was pending for a stalled connection is delivered intact once it reads again: the bytes a send helper put on the wire "
               "before the socket filled up are reported to asyncWriteImpl (one transmitting call per invocation), so the resumed write "
               "continues behind them instead of repeating them", min_instances=2)
+    ck.borrow("C06", ["C06-R4"], "C07-R8",
+              "a write that hits would-block more than once continues where it stopped: the holder that detach(offset) re-queues records "
+              "exactly the absolute offset it is given", min_instances=2)
+
+    # ---------------- R9: an idle worker sleeps in epoll_wait ----------------
+    ck.rule("C07-R9", "dataflow identity",
+            "Epoll::poll hands its timeout parameter to epoll_wait unchanged (through casts only), and the reactor's loop calls it with "
+            "the default of -1 ms: a negative time-out means 'wait until something happens' -- turned into 0 (a clamp, a max, a "
+            "conditional) the worker spins through an empty event loop for as long as a connection is blocked", 2)
+    ep = lib.single(prog, "Pistache::Polling::Epoll::poll")
+    ew = [e for e in ep.calls(lambda e: (e.get("callee") or "") == "epoll_wait")]
+    ck.require(ew and len(ew[0].get("args", [])) >= 4, "epoll_wait call not found in Epoll::poll")
+    tparam = [p_["name"] for p_ in ep.params if "chrono" in (p_.get("type") or "") or "milliseconds" in (p_.get("type") or "")]
+    ck.require(tparam, "timeout parameter of Epoll::poll not found")
+
+    def norm_(t_):
+        t_ = re.sub(r"\s+", "", t_ or "")
+        while True:
+            m_ = re.match(r"^(?:static_cast<[^<>]*>|\(int\)|int)\((.*)\)$", t_)
+            if m_:
+                t_ = m_.group(1)
+                continue
+            if t_.startswith("(") and t_.endswith(")"):
+                t_ = t_[1:-1]
+                continue
+            return t_
+    a4 = ew[0]["args"][3]
+    expr = norm_(a4.get("t"))
+    seen_ = set()
+    while a4.get("v") and expr == a4["v"] and expr not in seen_:
+        seen_.add(expr)
+        dl = [d_ for d_ in ep.events("decl") if d_.get("var") == a4["v"]]
+        if not dl:
+            break
+        expr = norm_((dl[0].get("init") or {}).get("t"))
+        a4 = dl[0].get("init") or {}
+    same = expr == "%s.count()" % tparam[0]
+    floors = re.search(r"clamp(<[^>]*>)?\([^,]*,0[,)]|max(<[^>]*>)?\((0,|[^,]*,0\))|<=?0\?0:|>=?0\?[^:]*:0$", expr) is not None
+    if not same and not floors:
+        # some other computation of the time-out: this rule knows the identity and the floor-at-zero patterns, nothing else
+        raise AnalysisBroken("C07-R9: the time-out handed to epoll_wait is computed as `%s`, a form this rule cannot judge" % expr[:100])
+    ck.ob("C07-R9", "Epoll::poll/timeout-unchanged", same, ew[0].loc, ep,
+          "epoll_wait(..., int(%s.count()))" % tparam[0] if same else
+          "epoll_wait is given `%s`, not the caller's time-out itself: a negative (infinite) time-out does not survive" % expr[:90])
+    ro = lib.single(prog, "Pistache::Aio::SyncImpl::runOnce")
+    pc = [e for e in ro.calls(lambda e: (e.get("callee") or "") == "Pistache::Polling::Epoll::poll")]
+    ck.require(pc, "Epoll::poll call not found in SyncImpl::runOnce")
+    for e in pc:
+        a_ = e.get("args") or []
+        tm = a_[1] if len(a_) > 1 else {}
+        infinite = (tm.get("dflt") and "-1" in (tm.get("dt") or tm.get("t") or "")) or re.search(r"\(-1\)|-1ms", re.sub(r"\s+", "", tm.get("t") or "")) is not None
+        ck.ob("C07-R9", "SyncImpl::runOnce/waits-without-limit", bool(infinite), e.loc, ro,
+              "poller.poll(events) with the default time-out of -1 ms" if infinite else
+              "runOnce polls with `%s`: with a finite (or zero) time-out the loop wakes up although nothing happened" % (tm.get("t") or "")[:60])
